@@ -33,6 +33,8 @@ def run(ctx, repo):
     RX.r_docmarker_column0(ctx, repo)
     RG.r_parser_grammar(ctx, repo, max_len=8 if ctx.tier == 'thorough' else 6)
 
+    RX.r_token_ready(ctx, repo)
+    RX.r_column_per_char(ctx, repo)
 
 if __name__ == '__main__':
     sys.exit(report.main('C09', 'other', run))
